@@ -162,6 +162,7 @@ func runScenario(k *mon.Case) {
 	sc := scenarios()[k.Index]
 	x := newExec(k, sc.cfg, true)
 	x.cont = sc.cont
+	x.labelHist = true
 	for _, o := range sc.ops() {
 		x.do(o)
 		if x.stopped {
